@@ -641,6 +641,12 @@ theorem resolver_no_subnet_no_scope (ro resp : List Opt) (h : ∀ o ∈ ro, o.is
       | other c d => simp only [firstEcs]; exact ih (fun o ho => h o (List.mem_cons_of_mem _ ho))
   exact ⟨by simp [resolverHandUp, hf], by simp [readResponseScope, hf]⟩
 
+/-- **Forwarder mode keeps the declared scope too**: the scope the cache reads is
+the upstream's first subnet option's, whatever else its OPT carries. -/
+theorem forwarder_hands_up_declared_scope (resp : List Opt) (d : Subnet) (h : firstEcs resp = some d) :
+    readResponseScope (forwarderHandUp (some resp)) = readResponseScope (some [Opt.ecs d]) := by
+  simp [forwarderHandUp, readResponseScope, firstEcs, h]
+
 /-- **Upstream lookups for different subnets are never collapsed**: two requests
 share a singleflight key only if they forward the same family, source netmask
 and address (and ask the same question with the same CD). -/
@@ -821,6 +827,18 @@ theorem edns_and_cache_agree (enabled : Bool) (f4 f6 m4 m6 : Nat) (nets : List (
         · exact Or.inr (Or.inr (Or.inr (Or.inr (Or.inl h)))))
   exact ⟨hh.1, hh.2.1⟩
 
+/-- the file route: an `[ecs]` block read through `config.Load` fails closed exactly like one built in code. -/
+theorem loaded_config_fails_closed (enabled : Bool) (f4 f6 m4 m6 : Nat) (nets : List (Option Prefix))
+    (h : f4 > 32 ∨ f6 > 128 ∨ m4 > 32 ∨ m6 > 128) :
+    ednsPolicy (loadedEcs enabled f4 f6 m4 m6 nets) = none ∧ cachePolicy (loadedEcs enabled f4 f6 m4 m6 nets) = none := by
+  have hh := (invalid_config_disables enabled f4 f6 m4 m6 nets
+    (by rcases h with h | h | h | h
+        · exact Or.inr (Or.inl h)
+        · exact Or.inr (Or.inr (Or.inl h))
+        · exact Or.inr (Or.inr (Or.inr (Or.inl h)))
+        · exact Or.inr (Or.inr (Or.inr (Or.inr (Or.inl h)))))).1
+  exact ⟨hh, hh⟩
+
 /-- what `Build` hands out is always in range: ceilings and floors are between 1 and the family width. -/
 theorem build_ok_in_range (enabled : Bool) (f4 f6 m4 m6 : Nat) (nets : List (Option Prefix)) (pol : Policy)
     (h : build enabled f4 f6 m4 m6 nets = .ok pol) :
@@ -876,6 +894,8 @@ example : requestScope (some demoPol) (some ⟨.v4, 0x0a010203⟩) (some [.ecs (
 example : readResponseScope (resolverHandUp (some [.ecs (Fwd.mk .v4 19 0x0a01e000).toSubnet])
     (some [.ecs ⟨1, 19, 24, some [10, 1, 0xe0, 0]⟩])) = some ⟨.v4, 0x0a01e000, 24⟩ := by decide
 example : readResponseScope (resolverHandUp (some [.ecs (Fwd.mk .v4 19 0x0a01e000).toSubnet]) (some [])) = none := by decide
+example : readResponseScope (forwarderHandUp (some [.other 10 "aabb", .ecs ⟨1, 24, 24, some [203, 0, 113, 0]⟩])) = some ⟨.v4, 0xcb007100, 24⟩ := by decide
+example : ednsPolicy (loadedEcs true 40 0 0 0 []) = none := by decide
 example : lookupKey 7 false [.ecs (Fwd.mk .v4 24 0x0a010200).toSubnet] ≠ lookupKey 7 false [.ecs (Fwd.mk .v4 24 0xc6336400).toSubnet] := by decide
 example : requestScope (some demoPol) (some ⟨.v4, 0x0a010203⟩) (some [.ecs (Fwd.mk .v6 56 0x20010db8000a00000000000000000000).toSubnet]) =
     some ⟨.v6, 0x20010db8000a00000000000000000000, 56⟩ := by decide
